@@ -249,7 +249,34 @@ def terms_equal(a, b) -> Optional[bool]:
     status, _ = A.differ_witness(a, b)
     if status == "differ":
         return False
+    if status == "unknown" and _domains_differ(a, b):
+        return False
     return None
+
+
+def _domains_differ(a, b) -> bool:
+    """One term is defined at a dozen sample points at which the other never is (e.g. the factorial of a negative literal):
+    the two do not 'evaluate identically wherever the tree does'."""
+    import random
+    rnd = random.Random(11)
+    syms = sorted(A.symbols(a) | A.symbols(b))
+    only_a = only_b = both = 0
+    for i in range(60):
+        pool = ([1, 2, 3, 4, 5], [-3, -2, -1, 1, 2, 3], [0.5, 1.5, 2.5, -0.5, 2])[i % 3]
+        env = {s_: float(rnd.choice(pool)) for s_ in syms}
+        da = db = True
+        try:
+            A.evaluate(a, env)
+        except A.Undefined:
+            da = False
+        try:
+            A.evaluate(b, env)
+        except A.Undefined:
+            db = False
+        both += da and db
+        only_a += da and not db
+        only_b += db and not da
+    return both == 0 and max(only_a, only_b) >= 12
 
 
 def surface(toks: List[Tuple[str, int]]) -> str:
